@@ -296,6 +296,7 @@ fn drive_polling_loop<F: std::future::Future<Output = u32>>(ctx: &Ctx, fut: F) -
             Poll::Pending => {
                 sleeps += 1;
                 ctx.sleep_point();
+                ctx.note("slept", json!(""));
                 Poll::Pending
             }
         })
